@@ -48,7 +48,7 @@ CONSTANTS
   Weak_NewValidBlockIgnored,              \* Receive: NewValidBlockMessage no longer applied to the peer state
   Weak_InitMarksPartsHad,                 \* InitProposalBlockParts: the fresh bit array is all ones
   Weak_VoteMarkedBeforeRoundCheck,        \* ApplyNewRoundStepMessage: Prevotes/Precommits survive a round change
-  AllowGaps                               \* TRUE: the named gaps (Gaps below) are exempt from GossipComplete
+  AllowedGaps                             \* the named gaps (GapClass below) that are exempt from GossipComplete
 
 CN == INSTANCE TMConsensusNode
 
@@ -476,6 +476,7 @@ HeaderTold(x, kh) == \E e \in kh : e.h = x.h /\ e.hdr = HdrOf(x) /\ (e.c \/ e.r 
 ProposalLack(n, x) == n.h = x.h /\ n.cn.prop # NoProp /\ n.cn.prop.r = RoundOf(x) /\ RoundOf(n) = RoundOf(x) /\ x.cn.prop = NoProp
 
 \* ---------------------------------------------------------------------- named gaps (what the real reactor never serves)
+AllGaps == {"G1_PeerAheadRound", "G2_CommitOtherRound", "G4_POLRoundUnknown", "G5_HeaderUnknown", "G6_POLShadowedByCatchupRound"}
 \* G1 PeerAheadRound    same height, the peer's round is LATER than the node's: every attempt of gossipVotesForHeight is
 \*                      guarded by prs.Round <= rs.Round, so votes the node holds for the peer's round (round+1 vote sets,
 \*                      catch-up rounds) are not forwarded until the node itself reaches that round.
@@ -500,11 +501,11 @@ GapClass(n, x, p, it) ==
   ELSE IF it.t = Prevote /\ it.r # RoundOf(x) /\ p.polR # it.r THEN "G4_POLRoundUnknown"
   ELSE IF it.t = Prevote /\ it.r # RoundOf(x) /\ p.ccR = it.r THEN "G6_POLShadowedByCatchupRound"
   ELSE "none"
-Gapped(n, x, p, it) == AllowGaps /\ GapClass(n, x, p, it) # "none"
+Gapped(n, x, p, it) == GapClass(n, x, p, it) \in AllowedGaps
 
 \* everything the peer lacks, needs, the node holds and the reactor is expected to serve, as tagged records of one shape
 LackRec(c, h, r, t, i, v) == [c |-> c, h |-> h, r |-> r, t |-> t, i |-> i, v |-> v]
-PartGapped(n, x, kh) == AllowGaps /\ x.h = n.h /\ ~HeaderTold(x, kh)
+PartGapped(n, x, kh) == "G5_HeaderUnknown" \in AllowedGaps /\ x.h = n.h /\ ~HeaderTold(x, kh)
 Lacks(n, x, p, kh) ==
        {LackRec("vote", it.h, it.r, it.t, it.i, it.v) : it \in {q \in VoteLacks(n, x) : ~Gapped(n, x, p, q)}}
   \cup {LackRec("conflict", it.h, it.r, it.t, it.i, it.v) : it \in {q \in ConflictLacks(n, x) : ~Gapped(n, x, p, q)}}
@@ -521,7 +522,7 @@ GapItems(n, x, p, kh) ==
 ClaimsDue(n, x, p) ==
   LET rs == IF n.h = x.h THEN ({RoundOf(x)} \cap n.cn.tracked) ELSE {}
       a  == {MMaj23(x.h, r, t, VS(n, t, r).maj) : r \in rs, t \in {Prevote, Precommit}}
-      pr == IF n.h = x.h /\ x.cn.prop # NoProp /\ x.cn.prop.pol \in n.cn.tracked /\ ~(AllowGaps /\ p.polR # x.cn.prop.pol)
+      pr == IF n.h = x.h /\ x.cn.prop # NoProp /\ x.cn.prop.pol \in n.cn.tracked /\ ~("G4_POLRoundUnknown" \in AllowedGaps /\ p.polR # x.cn.prop.pol)
             THEN {x.cn.prop.pol} ELSE {}
       b  == {MMaj23(x.h, r, Prevote, n.cn.pv[r].maj) : r \in pr}
       c  == IF x.h < n.h /\ x.h >= 1 THEN {MMaj23(x.h, n.chain[x.h].r, Precommit, n.chain[x.h].v)} ELSE {}
